@@ -78,6 +78,28 @@ func main() {
 			}
 		}
 		os.Exit(rc)
+	case "equiv":
+		ids := os.Args[2:]
+		if len(ids) == 0 {
+			ids = sortedIDs()
+		}
+		rc := 0
+		for _, id := range ids {
+			p := registry[id]
+			if p == nil {
+				fmt.Printf("unknown property %s\n", id)
+				rc = 1
+				continue
+			}
+			for _, m := range runEquiv(p, "slicelabels", "incdec", "cmpflip") {
+				fmt.Printf("%s %-14s %s  %s\n", id, m.ID, m.Verdict, m.Detail)
+				if m.Verdict == "ALARM" || m.Verdict == "BROKEN" {
+					rc = 1
+				}
+			}
+			runtime.GC()
+		}
+		os.Exit(rc)
 	case "names-ref":
 		// regenerate the naming reference from the tree under analysis (run on the tree the rules were confirmed on)
 		if err := writeNamesRef(); err != nil {
@@ -290,6 +312,14 @@ func runCheck(id, tier string) int {
 			if m.Verdict == "ALARM" {
 				all = append(all, Obligation{Key: "checker-regression@" + m.ID, Rule: "checker-regression", Status: StIncomplete,
 					Reason: "renaming every local variable changes a verdict: " + m.Detail})
+			}
+		}
+		// … and with every side-effect-free comparison mirrored / every x++ written as x += 1
+		for _, m := range runEquiv(p, "slicelabels", "cmpflip", "incdec") {
+			stats["equiv_variants"]++
+			if m.Verdict == "ALARM" {
+				all = append(all, Obligation{Key: "checker-regression@" + m.ID, Rule: "checker-regression", Status: StIncomplete,
+					Reason: "an operator-level respelling changes a verdict: " + m.Detail})
 			}
 		}
 	}
